@@ -24,7 +24,7 @@ EXPLANATION = (
     "format constants conform to ISO 10303-21 and its scratch buffer is at least as large as the maximal expansion of "
     "its format plus the appended point; enumeration/binary/reference writers emit their delimiters; (R6) the four "
     "enumeration item look-ups decide by whole-string equality; (R7) in the files that read literals a severity already raised is "
-    "lowered only at reviewed sites or under a guard that the severity is exactly SEVERITY_INCOMPLETE (C03's relaxation rule and table). Not decided: equality of the hand-written scanners' "
+    "lowered only at reviewed sites or under a guard that the severity is exactly SEVERITY_INCOMPLETE (C03's relaxation rule and table). (R1, generalised) a reader that converts with a C library function (strtod, strtol, ...) tests both the end pointer and the range indication (errno / isinf / HUGE_VAL) before it accepts the value; a conversion that cannot report failure (atof, atoi) is a violation. (R7) a failed conversion of an optional attribute is not forgiven. Not decided: equality of the hand-written scanners' "
     "accepted language with the ISO grammar, exact values, string escapes.")
 
 READERS = {"ReadInteger": "integer", "ReadReal": "real", "ReadNumber": "number"}
